@@ -55,6 +55,38 @@ func (e *Exec) ifaceCandidates(key string) ([]types.Type, bool) {
 	return out, true
 }
 
+// ifaceCandidatesByType: defaults by static interface type.
+func (e *Exec) ifaceCandidatesByType(t types.Type) ([]types.Type, bool) {
+	lookup := func(pkg, name string, ptr bool) types.Type {
+		p := e.findPkg(pkg)
+		if p == nil || p.Type(name) == nil {
+			return nil
+		}
+		var t types.Type = p.Type(name).Type()
+		if ptr {
+			t = types.NewPointer(t)
+		}
+		return t
+	}
+	switch {
+	case types.Identical(t, types.Universe.Lookup("error").Type()):
+		if es := lookup("errors", "errorString", true); es != nil {
+			return []types.Type{es, nil}, true
+		}
+	case namedOf(t) == "crypto/elliptic.Curve":
+		// the named curves answer Params() with their parameter block; an arbitrary parameter block stands for them
+		if cp := lookup("crypto/elliptic", "CurveParams", true); cp != nil {
+			return []types.Type{cp}, true
+		}
+	default:
+		if it, ok := t.Underlying().(*types.Interface); ok && it.Empty() {
+			// attribute values decoded by encoding/asn1 are strings for every string type
+			return []types.Type{types.Typ[types.String], nil}, true
+		}
+	}
+	return nil, false
+}
+
 // ifaceChosen adds the parser invariant tied to the choice of candidate i.
 // P3: the dynamic type of Certificate.PublicKey is determined by
 // PublicKeyAlgorithm (zcrypto x509.go parsePublicKey: RSA=1 -> *rsa.PublicKey,
